@@ -6,6 +6,8 @@ export CARGO_NET_OFFLINE=true
 mkdir -p work evidence .cache
 cp -n /repo/Cargo.lock host/Cargo.lock 2>/dev/null || true
 (cd host && cargo build --quiet)
+cp -n /repo/Cargo.lock bhost/Cargo.lock 2>/dev/null || true
+(cd bhost && cargo build --quiet) || echo "bhost build failed: C11 / C20 will report it"
 # second build of the host with the generator's dynamic_load + ssr arms (C17)
 (cd host && cargo build --quiet --features dynamic_load,ssr --target-dir "$PWD/target-dl") || echo "host (dynamic_load) build failed: C17 will report it"
 # warm the native replay crate (leptos + leptos_i18n build, ~40 s cold)
@@ -26,7 +28,7 @@ PY
 import sys, os
 sys.path.insert(0, os.path.join(os.getcwd(), "lib"))
 import mirsmt
-for crate, out in (("leptos_i18n_parser", "parser.mir"), ("leptos_i18n_router", "router.mir")):
+for crate, out in (("leptos_i18n_parser", "parser.mir"), ("leptos_i18n_router", "router.mir"), ("leptos_i18n", "leptos_i18n.mir"), ("leptos_i18n_build", "build.mir")):
     try:
         mirsmt.dump_mir(crate, out)
         print("MIR of", crate, "ok")
